@@ -93,4 +93,104 @@ theorem condCoding_accs (d : Dec) (a : Args) (n : Int) (hn : 0 ≤ n) (h : d.ch0
     · simp only [List.mem_singleton] at hx; subst hx; exact inb_idx (by omega) (by omega)
     · split at hx <;> simp at hx
 
+theorem inb_tmp {lo n cap : Int} (hn : 0 < n) (hlo : 0 ≤ lo) (h : lo + n ≤ cap) : Acc.InBounds { buf := "tmp", lo := lo, n := n, cap := cap } := by
+  simp [Acc.InBounds, Acc.hi]; omega
+
+theorem frames_accs (d : Dec) (a : Args) (o : Orc) (hs : Bool) (hci : a.nChannelsInternal = 1 ∨ a.nChannelsInternal = 2)
+    (hfl : 0 < d.ch0.frame_length) (hfl1 : a.nChannelsInternal = 2 → d.ch1.frame_length = d.ch0.frame_length)
+    (h0 : 0 ≤ d.ch0.nFramesDecoded) (h3 : d.ch0.nFramesDecoded < 3) : ∀ x ∈ (frames d a o hs).ac, x.InBounds := by
+  intro x hx
+  have hc0 := condCoding_accs d a 0 (by omega) (by omega)
+  unfold frames at hx
+  dsimp only at hx
+  split at hx
+  · rename_i h2
+    have e := hfl1 h2
+    split at hx
+    · simp only [List.mem_append, List.mem_singleton] at hx
+      rcases hx with ((hx | rfl) | hx) | rfl
+      · exact hc0 x hx
+      · rw [h2]; exact inb_tmp hfl (by omega) (by omega)
+      · refine condCoding_accs _ a 1 (by omega) ?_ x hx
+        show d.ch0.nFramesDecoded + 1 - 1 < 3; omega
+      · rw [h2, e]; exact inb_tmp hfl (by omega) (by omega)
+    · simp only [List.mem_append, List.mem_singleton] at hx
+      rcases hx with (hx | rfl) | rfl
+      · exact hc0 x hx
+      · rw [h2]; exact inb_tmp hfl (by omega) (by omega)
+      · rw [h2]; exact inb_tmp hfl (by omega) (by omega)
+  · have h1 : a.nChannelsInternal = 1 := by omega
+    simp only [List.mem_append, List.mem_singleton] at hx
+    rcases hx with hx | rfl
+    · exact hc0 x hx
+    · rw [h1]; exact inb_tmp hfl (by omega) (by omega)
+
+theorem prepReset_facts2 (d : Dec) (a : Args) (h1 : a.nChannelsInternal = 1) (h2 : d.nChannelsInternal = 2) :
+    (prepReset d a).1.ch1 = d.ch1 ∧ (prepReset d a).1.ch0.fs_kHz = d.ch0.fs_kHz := by
+  have hgt : ¬ a.nChannelsInternal > d.nChannelsInternal := by omega
+  by_cases hnew : a.newPacketFlag ≠ 0
+  · rw [prepReset_new_le hnew hgt]
+    have : ¬ a.nChannelsInternal = 2 := by omega
+    rw [if_neg this]
+    exact ⟨rfl, rfl⟩
+  · rw [prepReset_old (by omega) hgt]
+    exact ⟨rfl, rfl⟩
+
+theorem prepStereo_mono (d : Dec) (a : Args) (h1 : a.nChannelsInternal = 1) :
+    (prepStereo d a).ch1 = d.ch1 ∧ (prepStereo d a).ch0 = d.ch0 := by
+  unfold prepStereo
+  have : ¬ (a.nChannelsAPI = 2 ∧ a.nChannelsInternal = 2 ∧ (d.nChannelsAPI = 1 ∨ d.nChannelsInternal = 1)) := by omega
+  rw [if_neg this]
+  exact ⟨rfl, rfl⟩
+
+/-- stereo_to_mono (:175): channel 1 still carries the resampler of the collapsed stereo stream, at the current rate. -/
+theorem prep_sToM {api : Int} {d : Dec} {a : Args} (hI : Inv api d) (hN : d.nChannelsInternal ≤ 2) (hA : ArgsOk api d a)
+    (hs : (prep d a).sToM = true) : (prep d a).d.ch1.rsIn = (prep d a).d.ch0.fs_kHz := by
+  obtain ⟨ha, hapi, hp, hr, hca, hci, hl, hproto⟩ := hA
+  obtain ⟨f1, f2, f3, f4, f5, f6⟩ := prepReset_facts hI hN hci hproto
+  rw [prep_eq, if_neg (fun h => h hci)] at hs ⊢
+  have key : ∀ c0 : Chan, (c0.fs_kHz = a.internalSampleRate / 1024 + 1 ∨ c0.fs_kHz = (prepReset d a).1.ch0.fs_kHz) →
+      decide (a.nChannelsInternal = 1 ∧ (prepReset d a).1.nChannelsInternal = 2 ∧
+        a.internalSampleRate = 1000 * (prepReset d a).1.ch0.fs_kHz) = true →
+      (prepReset d a).1.ch1.rsIn = c0.fs_kHz := by
+    intro c0 hc0 hdec
+    obtain ⟨m1, m2, m3⟩ := of_decide_eq_true hdec
+    rw [f1] at m2
+    obtain ⟨q1, q2⟩ := prepReset_facts2 d a m1 m2
+    rw [q2] at m3 hc0
+    rw [q1]
+    rcases hI with ⟨i0, _⟩ | ⟨i0, i1⟩
+    · rw [i0] at m3; exfalso; have : freshChan.fs_kHz = 0 := rfl; omega
+    · obtain ⟨j1, j2⟩ := i1 m2
+      have e1 : d.ch1.rsIn = d.ch1.fs_kHz := j1.1.2.2.2.2.2.2.2.2.2.1
+      have e2 : d.ch1.fs_kHz = d.ch0.fs_kHz := j2.1
+      have e3 := i0.1.1
+      rcases hc0 with hc0 | hc0 <;> omega
+  generalize hd1 : (prepReset d a).1 = d1 at *
+  dsimp only at hs ⊢
+  by_cases hz : d1.ch0.nFramesDecoded = 0
+  · rw [if_pos hz] at hs ⊢
+    obtain ⟨c0, e0, g0⟩ := cfgChan_ok ha hapi hp hr f4
+    rw [e0] at hs ⊢
+    dsimp only at hs ⊢
+    by_cases h2 : a.nChannelsInternal = 2
+    · exfalso
+      rw [if_pos h2] at hs
+      obtain ⟨c1, e1, g1⟩ := cfgChan_ok ha hapi hp hr (f5 h2).1
+      rw [e1] at hs
+      dsimp only at hs
+      rw [(step2'_ok ha hapi _ _).2.2.2.2] at hs
+      have := (of_decide_eq_true hs).1
+      omega
+    · have h1 : a.nChannelsInternal = 1 := by omega
+      rw [if_neg h2] at hs ⊢
+      rw [(step2'_ok ha hapi _ _).2.2.2.2] at hs
+      rw [(step2'_ok ha hapi _ _).2.2.2.1, (prepStereo_mono _ a h1).1, (prepStereo_mono _ a h1).2]
+      exact key c0 (Or.inl g0.2.2.2.2.1) hs
+  · rw [if_neg hz] at hs ⊢
+    rw [(step2'_ok ha hapi _ _).2.2.2.2] at hs
+    have h1 : a.nChannelsInternal = 1 := (of_decide_eq_true hs).1
+    rw [(step2'_ok ha hapi _ _).2.2.2.1, (prepStereo_mono _ a h1).1, (prepStereo_mono _ a h1).2]
+    exact key d1.ch0 (Or.inr rfl) hs
+
 end Opus.SilkApi
